@@ -18,6 +18,7 @@
 #include "vclock.h"
 #include "world.h"
 
+#include <sys/time.h>
 #include <dirent.h>
 #include <fcntl.h>
 #include <ftw.h>
@@ -563,12 +564,20 @@ int main() {
   std::string kmsg = vh::scratchRoot() + "/kmsg-" + std::to_string(getpid());
   Log::init(kmsg);
   vh::lineLoop([](const Json::Value& sc, Json::Value& out) {
+    // watchdog of one scenario (a few ticks: milliseconds): 20 s of CPU time (a busy hang; not sensitive to machine load) or
+    // 150 s of wall time (a blocked one) end the process with SIGPROF / SIGALRM, which the runner records as the outcome of
+    // this scenario and goes on with the next one in a fresh process
+    struct itimerval cpu = {{0, 0}, {20, 0}}, off = {{0, 0}, {0, 0}};
+    ::setitimer(ITIMER_PROF, &cpu, nullptr);
+    ::alarm(150);
     std::string k = sc["kind"].asString();
     if (k == "reader") doReader(sc, out);
     else if (k == "dtype") doDtype(sc, out);
     else if (k == "tick") doTick(sc, out);
     else if (k == "ctx") doCtx(sc, out);
     else out["outcome"] = "bad-kind";
+    ::setitimer(ITIMER_PROF, &off, nullptr);
+    ::alarm(0);
   });
   ::unlink(kmsg.c_str());
   vh::finish(0);
